@@ -27,6 +27,7 @@ except ImportError:
 
 import numpy as np
 
+from pydrobert.speech import _verif
 from pydrobert.speech.alias import AliasedFactory, alias_factory_subclass_from_arg
 from pydrobert.speech import config
 from pydrobert.speech.filters import GammaWindow
@@ -461,6 +462,7 @@ class ShortTimeFourierTransformFrameComputer(LinearFilterBankFrameComputer):
 
     def compute_chunk(self, chunk: np.ndarray) -> np.ndarray:
         self._chunk_dtype = chunk.dtype  # needed for `finalize`
+        _verif_chunk_len = len(chunk)
         # algorithm should work when frame shift is greater than frame
         # length - buf_len may be negative, which will skip samples
         buf_len = self._buf_len
@@ -531,6 +533,20 @@ class ShortTimeFourierTransformFrameComputer(LinearFilterBankFrameComputer):
         self._buf[self._frame_length - len(keep) :] = keep
         self._buf_len = rem_len
         self._started = True
+        _verif.emit_outer(
+            "stft",
+            a="chunk",
+            obj=id(self),
+            cfg=dict(
+                L=self._frame_length,
+                S=self._frame_shift,
+                st=0 if self._frame_style == "causal" else (2 if self._kaldi_shift else 1),
+            ),
+            c=int(_verif_chunk_len),
+            nret=int(num_frames),
+            st=bool(self._started),
+            p=dict(bl=int(self._buf_len), ff=bool(self._first_frame)),
+        )
         return coeffs
 
     def finalize(self) -> np.ndarray:
@@ -576,6 +592,20 @@ class ShortTimeFourierTransformFrameComputer(LinearFilterBankFrameComputer):
         self._buf_len = 0
         self._started = False
         self._first_frame = True
+        _verif.emit_outer(
+            "stft",
+            a="finalize",
+            obj=id(self),
+            cfg=dict(
+                L=self._frame_length,
+                S=self._frame_shift,
+                st=0 if self._frame_style == "causal" else (2 if self._kaldi_shift else 1),
+            ),
+            c=0,
+            nret=int(coeffs.shape[0]),
+            st=bool(self._started),
+            p=dict(bl=int(self._buf_len), ff=bool(self._first_frame)),
+        )
         return coeffs
 
     def compute_full(self, signal: np.ndarray) -> np.ndarray:
@@ -585,7 +615,22 @@ class ShortTimeFourierTransformFrameComputer(LinearFilterBankFrameComputer):
         frame_length = self._frame_length
         frame_shift = self._frame_shift
         if len(signal) < frame_length // 2 + 1:
+            _verif.emit_outer(
+                "stft",
+                a="full",
+                obj=id(self),
+                cfg=dict(
+                    L=self._frame_length,
+                    S=self._frame_shift,
+                    st=0 if self._frame_style == "causal" else (2 if self._kaldi_shift else 1),
+                ),
+                c=int(len(signal)),
+                nret=0,
+                st=bool(self._started),
+                p=dict(bl=int(self._buf_len), ff=bool(self._first_frame)),
+            )
             return np.empty((0, self.num_coeffs), dtype=signal.dtype)
+        _verif_signal_len = len(signal)
         if self._frame_style == "causal":
             pad_left = 0
         elif self._kaldi_shift:
@@ -614,6 +659,20 @@ class ShortTimeFourierTransformFrameComputer(LinearFilterBankFrameComputer):
             self._compute_frame(
                 signal[frame_left : frame_left + frame_length], coeffs[frame_idx]
             )
+        _verif.emit_outer(
+            "stft",
+            a="full",
+            obj=id(self),
+            cfg=dict(
+                L=self._frame_length,
+                S=self._frame_shift,
+                st=0 if self._frame_style == "causal" else (2 if self._kaldi_shift else 1),
+            ),
+            c=int(_verif_signal_len),
+            nret=int(num_frames),
+            st=bool(self._started),
+            p=dict(bl=int(self._buf_len), ff=bool(self._first_frame)),
+        )
         return coeffs
 
 
@@ -782,6 +841,7 @@ class ShortIntegrationFrameComputer(LinearFilterBankFrameComputer):
         return self._started
 
     def compute_chunk(self, chunk: np.ndarray) -> np.ndarray:
+        _verif_chunk_len = len(chunk)
         self._compute_preamble(chunk)
         chunk = self._handle_skip(chunk)
         chunk_len = len(chunk)
@@ -830,10 +890,27 @@ class ShortIntegrationFrameComputer(LinearFilterBankFrameComputer):
             self._x_buf[:-chunk_to_copy] = self._x_buf[chunk_to_copy:]
             self._x_buf[-chunk_to_copy:] = chunk[-chunk_to_copy:]
         self._x_rem = max(0, num_raw - num_dfts * valid_samples_per_dft)
+        _verif.emit_outer(
+            "si",
+            a="chunk",
+            obj=id(self),
+            cfg=dict(
+                S=self._frame_shift,
+                M=self._max_support,
+                T=self._translation,
+                D=self._dft_size,
+                centered=self._frame_style == "centered",
+            ),
+            c=int(_verif_chunk_len),
+            nret=int(num_frames),
+            st=bool(self._started),
+            p=dict(skip=int(self._skip), xRem=int(self._x_rem), yRem=int(self._y_rem)),
+        )
         return coeffs
 
     def finalize(self) -> np.ndarray:
         coeffs = np.empty((0, self.num_coeffs), dtype=self._ret_dtype)
+        _verif.enter()  # the flush below goes through compute_chunk
         if self._started:
             frame_shift = self._frame_shift
             frame_length = self._frame_length
@@ -855,6 +932,23 @@ class ShortIntegrationFrameComputer(LinearFilterBankFrameComputer):
                     :num_frames
                 ]
         self._started = False
+        _verif.leave()
+        _verif.emit_outer(
+            "si",
+            a="finalize",
+            obj=id(self),
+            cfg=dict(
+                S=self._frame_shift,
+                M=self._max_support,
+                T=self._translation,
+                D=self._dft_size,
+                centered=self._frame_style == "centered",
+            ),
+            c=0,
+            nret=int(coeffs.shape[0]),
+            st=bool(self._started),
+            p=dict(skip=0, xRem=0, yRem=0),
+        )
         return coeffs
 
     def compute_full(self, signal: np.ndarray) -> np.ndarray:
